@@ -32,8 +32,8 @@ def dependency_units(pid):
     buf = ('PacketBuffer', lambda: c02.BufferContract())
     table = {
         'C01': [gendef],
-        'C07': [wlock],
-        'C05': [order, wlock, ('read-frame', lambda: c01.ReadFrame()), ('Position.send', lambda: c04.PositionSend()), ('Position.any-word', lambda: c04.PositionAnyWord()),
+        'C07': [wlock, wpkt],
+        'C05': [order, wlock, wpkt, ('read-frame', lambda: c01.ReadFrame()), ('Position.send', lambda: c04.PositionSend()), ('Position.any-word', lambda: c04.PositionAnyWord()),
                 ('ChunkSectionPos', lambda: c04.SectionPos()), ('BlockRecord', lambda: c04.BlockRecord()),
                 ('flag-names', lambda: c20.Flags())],
         'C06': [order],
